@@ -210,17 +210,18 @@ if __name__ == '__main__':
     sys.exit(run('C11', sys.argv[1] if len(sys.argv) > 1 else 'quick', 0))
 
 
-def run_single(host_rel, harness_file, modname, harness, scratch, timeout=900):
-    """Runs one Kani harness injected as a child module of /repo/<host_rel> in a scratch clone.
+def run_single(host_rel, harness_file, modname, harness, scratch, timeout=900, sub='kani1', stubbing=False):
+    """Runs one Kani harness injected as a child module of /repo/<host_rel> in a scratch clone (scratch/<sub>).
     Returns (verdict, detail, playback): verdict in ok | violation | undecided."""
-    dst = os.path.join(scratch, 'kani1', 'repo')
+    dst = os.path.join(scratch, sub, 'repo')
     os.makedirs(os.path.dirname(dst), exist_ok=True)
     subprocess.run(['rsync', '-a', '--delete', '--exclude', 'target', '--exclude', '.git', REPO + '/', dst + '/'], check=True)
     with open(os.path.join(dst, host_rel), 'a') as f:
         f.write('\n#[cfg(kani)]\n#[path = "%s"]\nmod %s;\n' % (harness_file, modname))
     env = dict(os.environ, CARGO_NET_OFFLINE='true')
+    zs = ['-Z', 'stubbing'] if stubbing else []
     try:
-        p = subprocess.run(['cargo', 'kani', '--output-format', 'regular', '--harness', harness], cwd=dst, env=env, capture_output=True, text=True, timeout=timeout)
+        p = subprocess.run(['cargo', 'kani'] + zs + ['--output-format', 'regular', '--harness', harness], cwd=dst, env=env, capture_output=True, text=True, timeout=timeout)
     except subprocess.TimeoutExpired:
         return 'undecided', 'cargo kani timed out after %d s' % timeout, None
     res = parse(p.stdout + '\n' + p.stderr).get(harness)
@@ -231,7 +232,7 @@ def run_single(host_rel, harness_file, modname, harness, scratch, timeout=900):
     if bad:
         play = None
         try:
-            p2 = subprocess.run(['cargo', 'kani', '-Z', 'concrete-playback', '--concrete-playback=print', '--harness', harness], cwd=dst, env=env,
+            p2 = subprocess.run(['cargo', 'kani'] + zs + ['-Z', 'concrete-playback', '--concrete-playback=print', '--harness', harness], cwd=dst, env=env,
                                 capture_output=True, text=True, timeout=timeout)
             m = re.search(r'```(.*?)```', p2.stdout, re.S)
             play = m.group(1).strip() if m else None
